@@ -60,8 +60,7 @@ def run_nvh(sub, scripts, tag, extra_args=(), timeout=3000):
             for sc in scripts[i::nshards]:
                 f.write(json.dumps(sc) + "\n")
         op = os.path.join(scratch, "o%d.ndjson" % i)
-        procs.append((subprocess.Popen([C.NVH, sub, sp, op, os.path.join(scratch, "db%d" % i)], stdout=subprocess.PIPE,
-                                       stderr=subprocess.PIPE, text=True, errors="replace"), op))
+        procs.append((C.Proc([C.NVH, sub, sp, op, os.path.join(scratch, "db%d" % i)], os.path.join(scratch, "log%d" % i)), op))
     runs, hangs = {}, []
     for p, op in procs:
         try:
@@ -211,8 +210,8 @@ def run_c20(pid, tier, seed):
     procs = []
     for i in range(nproc):
         op = os.path.join(scratch, "lock%d.ndjson" % i)
-        procs.append((subprocess.Popen([C.NVH, "lock", "run", str((n + nproc - 1) // nproc), str(seed * 100 + i), op,
-                                        os.path.join(scratch, "db%d" % i)], stdout=subprocess.PIPE, stderr=subprocess.PIPE, text=True), op))
+        procs.append((C.Proc([C.NVH, "lock", "run", str((n + nproc - 1) // nproc), str(seed * 100 + i), op,
+                              os.path.join(scratch, "db%d" % i)], os.path.join(scratch, "log%d" % i)), op))
     recs = []
     for p, op in procs:
         try:
